@@ -135,6 +135,7 @@ def replay(h, enc, Table, Missing):
                 o1, x1, o2, x2 = args
                 cur = cur.where(a={o1: val(x1)}, b=(val(x2) if o2 == "plain" else {o2: val(x2)}))
             got = rows_of(cur); exp = exp_rows(step)
+            if len(cur) != len(got): return (op + ":len", "step %d %s%r: len() says %d, iterating gives %d rows" % (nstep, op, args, len(cur), len(got)))
             if not same_rows(got, exp): return (op if not (stale and op in ("where2", "index")) else "where:after-unsorted-insert-into-indexed-table", "step %d %s%r: table shows %r, expected %r" % (nstep, op, args, got, exp))
             if tuple(cur.columns) != cols(step["ncols"]): return (op + ":columns", "step %d columns %r expected %r" % (nstep, cur.columns, cols(step["ncols"])))
             if op in ("index", "copy") and tuple(cur.indexes) != tuple(step["idx"]): return (op + ":indexes", "step %d indexes %r expected %r" % (nstep, cur.indexes, step["idx"]))
